@@ -181,6 +181,13 @@ pub fn run(input: &T) -> T {
                                 // returns (): the state at the moment of the return
                                 runner.state()
                             };
+                            // whether this task or the background task is polled first after
+                            // a stop is not fixed by tokio: Stopping / Stopped /
+                            // StoppedWithError are one observation class here
+                            let st = match st {
+                                State::Stopped | State::StoppedWithError(_) => State::Stopping,
+                                s => s,
+                            };
                             results.lock().unwrap()[idx] = Some(st);
                         });
                     }
